@@ -133,6 +133,35 @@ class Pool:
             t.join()
         return out
 
+    def stream(self, make_req, stop, limit):
+        """Keep all workers busy: request k is produced by make_req(k) when a worker becomes
+        free, until stop() is true or `limit` requests have been issued. Returns the list of
+        (k, request, result) sorted by k. Which k are executed depends on wall time, what each
+        of them does is decided by k alone."""
+        out = []
+        lock = threading.Lock()
+        state = {"k": 0}
+
+        def loop(w):
+            while True:
+                with lock:
+                    if stop() or state["k"] >= limit:
+                        return
+                    k = state["k"]
+                    state["k"] += 1
+                    req = make_req(k)
+                res = w.request(req)
+                with lock:
+                    out.append((k, req, res))
+
+        ts = [threading.Thread(target=loop, args=(w,)) for w in self.workers]
+        for t in ts:
+            t.start()
+        for t in ts:
+            t.join()
+        out.sort(key=lambda x: x[0])
+        return out
+
     def close(self):
         for w in self.workers:
             w.close()
